@@ -525,7 +525,8 @@ def under_orders(s):
 def gen_builder_case(rng, tables):
     """(prefix script, step dict with "src" = prefix script, form) -- every forwarded argument takes non-default values"""
     import pipes
-    g = pipes.Gen(rng, tables, features=["extend", "select_rows", "select_columns", "drop_columns", "rename_columns"])
+    g = pipes.Gen(rng, tables, features=["extend", "extend", "select_rows", "select_rows", "select_columns", "select_columns", "drop_columns", "drop_columns",
+                                         "rename_columns", "rename_columns", "natural_join", "concat_rows"])
     s, colty, order = g.pipeline(rng.randint(0, 2))
     form = rng.choice(FORMS)
     for f in [x for x in form.split("/") if x]:
@@ -600,7 +601,7 @@ def gen_builder_case(rng, tables):
     return s, st, form
 
 
-def builder_correspondence(chk, n):
+def builder_correspondence(chk, n, name="C06b"):
     """prefix (forced into every form the builders look at) + one step through the public API: the tree the REAL builder returns must be
     Model/Simplify.build_step of the converted prefix and step, compared structurally inside Coq; a disagreement is handed to the
     chain-vs-steps / accept oracle on the same script"""
@@ -646,7 +647,7 @@ def builder_correspondence(chk, n):
     pre = ("From Coq Require Import List Bool ZArith QArith String.\nImport ListNotations.\nOpen Scope string_scope.\n"
            "From DA Require Import Base.PyRT Base.Cases Base.Val Model.Sem Model.SemCases Model.MergeGuard Model.Simplify Model.SimplifyCases.\nOpen Scope list_scope.\n"
            "Definition IW : list string := %s.\n" % sl(sorted(er.fn_names_that_imply_windowed_situation)))
-    failing, errors, nchecked = lib.run_case_files("C06b", pre, terms, "check_bcases", per_file=min(350, max(60, (len(terms) + 7) // 8)))
+    failing, errors, nchecked = lib.run_case_files(name, pre, terms, "check_bcases", per_file=min(350, max(60, (len(terms) + 7) // 8)))
     chk.cov["correspondence_builder"] = {"what": "real builder tree for prefix + step vs Model/Simplify.build_step (structural comparison in Coq) and declared_names vs column_names",
                                          "cases": len(terms), "checked_in_coq": nchecked, "disagreements": len(failing), "errors": errors[:2]}
     if errors:
